@@ -9,7 +9,9 @@ ENTRY = {
     'rule': 'curves of degree 2..8: the cubic loop with closed-form crossing, planted transversal self-crossings (nets built in exact '
             'integers so that B(a) = B(b) for dyadic a < b, exactly representable), curves whose hodograph lies in an open half-plane '
             '(must return empty), random nets with large turning angle (every returned pair must be genuine: exact residual, 0 <= s1 < s2 <= 1 '
-            'with a gap), the non-terminating net of finding F-G; the turning-angle decision against the algebraic model; distinct by hash of '
+            'with a gap), several branches through one point (B(a) = B(b) = B(c), four branches from degree 7; parameters anywhere, all in one half, '
+            'on dyadic break points with an exactly representable net, or missing a common point by 2^-26 .. 2^-48: the crossings (a,b), (a,c), (b,c) '
+            'share their parameters pairwise and each must be returned exactly once), the non-terminating net of finding F-G; the turning-angle decision against the algebraic model; distinct by hash of '
             'exact inputs',
     'partial': ['proved (Props/C18, C18Merge, C18Cover; any ordered field, any fuel): every returned pair has 0 <= s1 < s2 <= 1 and is never the split '
                 'point; no pair is returned twice (self_intersections_nodup, after the repair 42a8a75); SOUNDNESS OF THE PRUNING TEST: the algebraic form of '
